@@ -42,6 +42,10 @@ func checkC14(c *Ctx) {
 	c.Expect("C14-R15", 1)
 	c.Rule("C14-R16", "NAME-truecolor, COLORTERM and TCELL_TRUECOLOR switch direct colour on for every entry: the block that supplies the standard 24-bit strings depends on the request and on the entry's own RGB strings only (not on its colour count or anything else it holds)")
 	c.Expect("C14-R16", 1)
+	c.Rule("C14-R17", "what a lookup returns does not depend on earlier lookups: LookupTerminfo and what it calls store nothing into package-level variables (a memo of synthesized entries keeps the direct-colour strings of the environment that filled it)")
+	c.Expect("C14-R17", 1)
+	c.Rule("C14-R18", "NAME-truecolor for a known base gets the 24-bit strings whichever member of the family the base is found under: every candidate lookup in the -truecolor branch is tested and raises the direct-colour flag on the found edge")
+	c.Expect("C14-R18", 1)
 	c.Rule("C14-R14", "what a lookup returns does not depend on earlier lookups: nothing hands the result of terminfo.LookupTerminfo back to AddTerminfo (it may be a private amended copy carrying the base entry's name; only entries loaded from infocmp are registered by the wrapper)")
 	c.Expect("C14-R14", 1)
 	c.Rule("C14-R13", "NAME-256color for a known base always synthesises the standard strings: the block that sets Colors = 256 depends on the name only, not on the contents of the base entry")
@@ -83,6 +87,8 @@ func checkC14(c *Ctx) {
 		checkNoReRegistration(c, p, "C14-R14")
 		checkRegistrationUnconditional(c, p, "C14-R15")
 		checkSynthTruecolorGuard(c, p, "C14-R16")
+		checkLookupLeavesPackageStateAlone(c, p, "C14-R17")
+		checkFoundBaseSwitchesDirectColourOn(c, p, "C14-R18")
 		c14Disable(c, p)
 		c14FoundBaseIsUsed(c, p)
 		checkVetoLast(c, p, "C14-R10")
